@@ -596,6 +596,7 @@ func Prop() *fw.Property {
 			"open subpaths: only region preservation under implicit closure is checked (the code documents open-subject support as work in progress and keeps them open)",
 		},
 		Families: families,
+		Customs:  func(tier string) []fw.Custom { return []fw.Custom{nearGridCustom()} },
 		KnownPredicates: map[string]func(*fw.Violation) bool{
 			// the input (first token of the case string) has a subpath that is not closed with z
 			"open-subject-subpath": func(v *fw.Violation) bool {
